@@ -557,10 +557,11 @@ def strace_kills(ctx, c, max_n):
     """SIGKILL at the N-th fdatasync/pwrite64 of the process, N = 1, 2, ...; returns (n_runs, first_problem)"""
     if not shutil.which('strace'):
         return 0, None, 'strace not available'
-    # what the model allows: the reader's finding after any prefix of the scenario (every one is a complete table)
+    # what the property allows: the last-committed table (Spec.C20.lastCommitted) of any prefix of the scenario --
+    # every one of them is a complete table; the kill lands inside some statement, we do not know which
     ops = lean_ops(c)
     lines = [{'op': 'store_scenario', 'ops': ops, 'k': k, 'r0': c['r0']} for k in range(len(ops) + 1)]
-    allowed = [a['model']['read'] for a in vlib.run_driver(lines, which='model', cluster=CLUSTER)]
+    allowed = [a['spec']['seen'] for a in vlib.run_driver(lines, which='model', cluster=CLUSTER)]
     here = os.path.dirname(os.path.dirname(os.path.abspath(__file__)))
     runs = 0
     for n in range(1, max_n + 1):
